@@ -19,7 +19,7 @@ package regex
 // ---- C11: chained rules are counted by lines whose first token is SecRule
 //@ reglemma[C11,C12] rx-prefix-ends-with-one-blank: subset(group(regex.RuleRxRegex, 1), full(`.*"!?@rx `))
 //@ reglemma[C11,C12] rx-suffix-starts-at-the-closing-quote: subset(group(regex.RuleRxRegex, 3), full(`" \\.*`))
-//@ reglemma[C11,C12] secrule-line: subset(match(regex.SecRuleRegex), full(`\s*SecRule(\s.*)?`), lines)
+//@ reglemma[C11,C12,C18] secrule-line: equal(match(regex.SecRuleRegex), full(`\s*SecRule\s.*`), lines)
 
 // ---- C14: whatever version the write side accepts, the read side matches in full.
 // semver.semVerRegex is the constant of the Masterminds/semver module compiled in
@@ -38,7 +38,7 @@ package regex
 //@ reglemma[C16] processor-start-recognises-every-name: equal(match(regex.ProcessorStartRegex), full(`##!>\s*[a-z].*`), lines)
 //@ reglemma[C16] processor-name-is-the-whole-word: equal(group(regex.ProcessorStartRegex, 1), full(`[a-z]+`))
 
-//@ reglemma[C10] block-start-kind: subset(match(regex.ProcessorBlockStartRegex), full(`##!>\s*(assemble|cmdline)(\s.*)?`), lines)
+//@ reglemma[C10,C09] block-start-kind: equal(match(regex.ProcessorBlockStartRegex), full(`##!>\s*(assemble|cmdline)(\s.*)?`), lines)
 // a comment (for the compiler) is never rewritten by a directive branch of the formatter
 //@ reglemma[C10] comment-not-directive: disjoint(match(regex.CommentRegex), or(match(regex.ProcessorBlockStartRegex), match(regex.ProcessorEndRegex), match(regex.FlagsRegex), match(regex.PrefixRegex), match(regex.SuffixRegex), match(regex.DefinitionRegex), match(regex.IncludeRegex), match(regex.IncludeExceptRegex)), lines)
 // formatter's block end == compiler's block end; block start/end never overlap the line-level directives
